@@ -675,6 +675,9 @@ def gen_rep_sweep(rng):
     for cls in ['z=-1', 'z=small', 'z=lambda']:
         e = ['pairing', 'fast', 'prep'][k % 3]; k += 1
         out.append((f'pair.{e}:sweep:P:{cls}', f'pair.{e} {rep(rng, K1, A, cls)[1]} {rep(rng, K2, Q, "z=1")[1]}'))
+    # the generator itself and its negative (what a cache or a special case would key on), raw and rescaled
+    for e, Qg, cls in (('prep', P2, 'z=1'), ('fast', pt_neg(K2, P2), 'z=1'), ('prep', P2, 'z=lambda'), ('fast', P2, 'z=-1')):
+        out.append((f'pair.{e}:sweep:generator:{cls}', f'pair.{e} {rep(rng, K1, A, "z=1")[1]} {rep(rng, K2, Qg, cls)[1]}'))
     # the "looks normalised" class against the two entry points that normalise
     for e in ['fast', 'prep']:
         out.append((f'pair.{e}:sweep:Q:z=1+bu', f'pair.{e} {rep(rng, K1, A, "z=lambda")[1]} {rep(rng, K2, Q, "z=1+bu")[1]}'))
